@@ -43,8 +43,16 @@ pub struct ConcCase {
     pub yields: Vec<u8>,
 }
 
+/// `t % 3`: 0 = expired at once, 1 = one hour, 2 = ten years; `t / 3`: a sub-second part for the live ones
+/// (0 = none, 1 = 100 ms, 2 = 999 ms): a store may keep a record a little *shorter* than asked (whole-second
+/// clocks), never longer.
 fn ttl_of(t: u8) -> Duration {
-    match t % 3 {
+    let frac = match (t % 3, t / 3) {
+        (0, _) | (_, 0) => Duration::ZERO,
+        (_, 1) => Duration::from_millis(100),
+        _ => Duration::from_millis(999),
+    };
+    frac + match t % 3 {
         0 => Duration::ZERO,
         1 => Duration::from_secs(3600),
         _ => Duration::from_secs(10 * 365 * 86_400),
@@ -792,7 +800,7 @@ fn state_map() -> impl Strategy<Value = Map> {
 
 fn seq_op() -> impl Strategy<Value = Op> {
     let id = 0u8..3;
-    let ttl = prop_oneof![2 => Just(0u8), 3 => Just(1u8), 1 => Just(2u8)];
+    let ttl = prop_oneof![4 => Just(0u8), 4 => Just(1u8), 2 => Just(2u8), 2 => Just(4u8), 2 => Just(7u8), 1 => Just(8u8)];
     prop_oneof![
         5 => (id.clone(), state_map(), ttl.clone()).prop_map(|(id, state, ttl)| Op::Create { id, state, ttl }),
         4 => (id.clone(), state_map(), ttl.clone()).prop_map(|(id, state, ttl)| Op::Update { id, state, ttl }),
@@ -848,7 +856,7 @@ pub fn conc_strategy(sqlite: bool) -> impl Strategy<Value = ConcCase> {
 }
 
 pub fn main(mut chk: Check) -> ! {
-    chk.ev.rule = "sequential: 1-40 store operations (create/update/update_ttl/load/delete/change_id/delete_expired) over 3 ids, states = arbitrary JSON maps (any unicode, extreme numbers), ttl in {0 = expired at once, 1h, 10y}, on the in-memory and the SQLite store; every result is checked against a map-with-expiry model and every id is loaded at the end. concurrent: 2-4 tasks x 2-5 ops on 2 ids (long TTLs), multi-thread runtime, barrier start, random yields, each history repeated; oracle = some interleaving respecting program order explains all results and final loads (memoised DFS). leftovers: 20-200 ids with an expired, unreaped record; 0-2 reaper tasks (delete_expired, batch none/1/7/64) and 2-4 creator tasks (contended or partitioned) start together; oracle = what every sequential order implies (some create succeeds per id, in-memory exactly one, the final record is the one of a successful creator, never gone). non-trivial = an op touches an expired record or a change_id whose target exists (sequential), >=2 tasks write the same id (concurrent); distinct = distinct serialised case".into();
+    chk.ev.rule = "sequential: 1-40 store operations (create/update/update_ttl/load/delete/change_id/delete_expired) over 3 ids, states = arbitrary JSON maps (any unicode, extreme numbers), ttl in {0 = expired at once, 1h, 10y, 1h+100ms, 1h+999ms, 10y+999ms}, on the in-memory and the SQLite store; every result is checked against a map-with-expiry model and every id is loaded at the end. concurrent: 2-4 tasks x 2-5 ops on 2 ids (long TTLs), multi-thread runtime, barrier start, random yields, each history repeated; oracle = some interleaving respecting program order explains all results and final loads (memoised DFS). leftovers: 20-200 ids with an expired, unreaped record; 0-2 reaper tasks (delete_expired, batch none/1/7/64) and 2-4 creator tasks (contended or partitioned) start together; oracle = what every sequential order implies (some create succeeds per id, in-memory exactly one, the final record is the one of a successful creator, never gone). non-trivial = an op touches an expired record or a change_id whose target exists (sequential), >=2 tasks write the same id (concurrent); distinct = distinct serialised case".into();
     chk.ev.assume("create on a live id may answer DuplicateId or Ok-without-effect (the latter is pinned by an upstream SQLite test)");
     chk.ev.assume("change_id onto an id still physically occupied by an expired, unpurged record may be refused (not covered by the statement)");
     chk.ev.assume("floating point numbers are restricted to those that survive serde_json text encoding/decoding in the harness (serde_json is built without float_roundtrip; 1-ULP parse errors are a property of that library, not of the stores)");
